@@ -1218,7 +1218,10 @@ def array_to_groups_and_locations(
                 return_inverse=True,
                 axis=unique_axis)
         # groups here are the strings; need to restore to values
-        groups = array[group_index]
+        if unique_axis == 1:
+            groups = array[:, group_index]
+        else:
+            groups = array[group_index]
 
     return groups, locations
 
